@@ -225,14 +225,15 @@ def judge_step(col, w, cmd, before, after, rc, err, wit):
             if txt.count(line) > 1:
                 col.violation("attributes-line-duplicated", "%r appears %d times after %s" % (line, txt.count(line), cmd), wit, "attributes")
     # disabled => keys do not resolve in that scope
-    if act == "--disable" and rc == 0:
+    if act == "--disable":
+        # whatever the command's exit status: after a disable the drivers it is responsible for must be gone
         col.mon("disabled")
         if tool in ("nbdime config-git", "git-nbdiffdriver config") and "diff.jupyternotebook.command" in a:
             col.violation("diff-driver-still-configured-after-disable", str(cmd), wit, "disable")
         if tool in ("nbdime config-git", "git-nbmergedriver config") and "merge.jupyternotebook.driver" in a:
             col.violation("merge-driver-still-configured-after-disable", str(cmd), wit, "disable")
     # enabled => git routes notebooks to the driver (one attributes line per driver must be in effect)
-    if act == "--enable" and rc == 0 and tool in ("nbdime config-git", "git-nbdiffdriver config", "git-nbmergedriver config"):
+    if act == "--enable" and tool in ("nbdime config-git", "git-nbdiffdriver config", "git-nbmergedriver config"):
         col.mon("enabled")
         p = w.git("check-attr", "diff", "merge", "--", "x.ipynb", check=False)
         attrs = {}
@@ -285,8 +286,13 @@ def run_shard(spec):
                 if c[1] == "--enable":
                     myseqs.append([c, c])
             myseqs += [[r.choice(cmds), r.choice(cmds), r.choice(cmds)] for _ in range(spec["seqs"] // 4)]
+            # everything enabled, one part disabled on its own, then everything disabled (and the mirror image)
+            parts = [c for c in cmds if c[0] != "nbdime config-git" and c[1] == "--disable"]
+            part = r.choice(parts)
+            partial = [[("nbdime config-git", "--enable", False), part, ("nbdime config-git", "--disable", False)],
+                       [("nbdime config-git", "--disable", False), (part[0], "--enable", False), ("nbdime config-git", "--enable", False)]]
             r.shuffle(myseqs)
-            myseqs = myseqs[: spec["seqs"]] + [[c, c] for c in cmds if c[1] == "--enable"][:3]
+            myseqs = myseqs[: spec["seqs"]] + [[c, c] for c in cmds if c[1] == "--enable"][:3] + partial
         else:
             myseqs = seqs
         for seq in myseqs:
